@@ -14,6 +14,7 @@ WEIGHTS = [Fraction(0), Fraction(1, 4), Fraction(1, 2), Fraction(1), Fraction(1)
            Fraction(2), Fraction(3)]
 
 TINY = Fraction(1, 2 ** 40)
+NEAR1 = 1 + Fraction(1, 2 ** 20)
 
 CAT_LIKE = ("cat", "cat_date", "datetime", "text", "binned", "logical")
 
@@ -265,8 +266,13 @@ def gen_survey(rng, vars_, n_resp=None, weighted=True, skew=True, tiny=False):
     # now and then the whole survey is weighted on a tiny (still dyadic, hence exact) scale: proportions, indexes and
     # tests of proportions are scale-free, so nothing may treat a base of 2^-40 as "empty"
     scale = TINY if (weighted and rng.random() < 0.07 and tiny) else Fraction(1)
+    # ... and now and then every weight is 1 + 2^-20: weighted and unweighted counts then differ by 1e-6 relative (and
+    # floor(weighted) = unweighted), so "this cube is not really weighted" shortcuts with a tolerance show up
+    near1 = weighted and tiny and scale == 1 and rng.random() < 0.06
     for _ in range(n_resp):
         w = rng.choice(WEIGHTS) * scale if weighted else Fraction(1)
+        if near1:
+            w = NEAR1
         ans = []
         for v, sup in zip(vars_, supports):
             if v.is_array:
